@@ -40,7 +40,9 @@ PROPS = {
                      "coincident corner energy is never used (NotOnDegenerateCorner: the polynomial branch evaluates the cubic of the 1e-12 "
                      "wide piece there, error 1e-3 .. 1e8 for accurate=False, see DESIGN 7); der n at a corner of multiplicity m is compared "
                      "with the closed form only if m + n <= 3 (WellDefined), otherwise with the code's right-continuous convention; bands are "
-                     "ordered at every corner (BandsOrderedAtCorners, true for sorted eigenvalues).",
+                     "ordered at every corner (BandsOrderedAtCorners, true for sorted eigenvalues). Nearly coincident corners (gaps 2^-10..2^-46, "
+                     "not representable in TLC) are checked outside TLC on the accurate branch by the rigorous bracket exact(ef-4e-12) <= w <= "
+                     "exact(ef) (the 1e-12 nudge moves corners up by <= 3e-12) and only measured on the polynomial branch (numeric_only parts).",
                 ref="DESIGN.md 3.5"),
 }
 
